@@ -86,6 +86,17 @@ def mm_of(s):
     return int(s.split(":")[1])
 
 
+@primitive
+def all_of(conds):
+    """conjunction of a list of conditions (evaluated without short-circuit)"""
+    return all(conds)
+
+
+@primitive
+def implies(a, b):
+    return (not a) or b
+
+
 # ------------------------------------------------------------------------------------- byte helpers
 @primitive
 def le16(n):
@@ -292,7 +303,9 @@ def ref_login(r):
 
 
 def wf_state1(r):
-    return len(r) >= 101 and r[75] <= 1 and le32v(r[89:93]) < 86400 and le32v(r[93:97]) < 86400 and le32v(r[97:101]) < 86400
+    if len(r) < 101:
+        return False
+    return all_of([r[75] <= 1, le32v(r[89:93]) < 86400, le32v(r[93:97]) < 86400, le32v(r[97:101]) < 86400])
 
 
 def ref_state1(r, State):
@@ -309,7 +322,9 @@ def ref_state1(r, State):
 
 
 def wf_shutter(r):
-    return len(r) >= 80 and ((r[78] == 0 and r[79] == 0) or (r[78] == 1 and r[79] == 0) or (r[78] == 0 and r[79] == 1))
+    if len(r) < 80:
+        return False
+    return all_of([r[78] <= 1, r[79] <= 1, r[78] + r[79] <= 1])
 
 
 def ref_shutter(r, Direction):
@@ -323,21 +338,29 @@ def ref_shutter(r, Direction):
     return {"position": r[76], "direction": d, "unparsed_response": r}
 
 
+STATE_BY_CODE = {0: "OFF", 1: "ON"}
 MODE_BY_CODE = {1: "AUTO", 2: "DRY", 3: "FAN", 4: "COOL", 5: "HEAT"}
 FAN_BY_CODE = {0: "AUTO", 1: "LOW", 2: "MEDIUM", 3: "HIGH"}
 
 
+@primitive
+def pick(cls, table, code):
+    """the member of Enum class cls whose name is table[code]"""
+    return cls[table[code]]
+
+
 def wf_thermostat(r, idlen):
     """well-formed thermostat reply whose remote id has idlen ASCII characters (no NUL) and is zero padded to 8 bytes"""
-    if not (len(r) >= 92 and r[78] <= 1 and 1 <= r[79] <= 5 and r[81] // 16 <= 3 and r[81] % 16 <= 1):
+    if len(r) < 92:
         return False
+    conds = [r[78] <= 1, r[79] >= 1, r[79] <= 5, r[81] // 16 <= 3, r[81] % 16 <= 1]
     for i in range(8):
         if i < idlen:
-            if not (1 <= r[84 + i] < 128):
-                return False
-        elif r[84 + i] != 0:
-            return False
-    return True
+            conds.append(r[84 + i] >= 1)
+            conds.append(r[84 + i] < 128)
+        else:
+            conds.append(r[84 + i] == 0)
+    return all_of(conds)
 
 
 def ref_thermostat(r, idlen, State, Mode, Fan, Swing):
@@ -346,10 +369,10 @@ def ref_thermostat(r, idlen, State, Mode, Fan, Swing):
     rid = ""
     for i in range(idlen):
         rid = rid + chr(r[84 + i])
-    return {"state": State["ON"] if r[78] == 1 else State["OFF"],
-            "mode": Mode[MODE_BY_CODE[r[79]]],
-            "fan_level": Fan[FAN_BY_CODE[r[81] // 16]],
-            "swing": Swing["ON"] if r[81] % 16 == 1 else Swing["OFF"],
+    return {"state": pick(State, STATE_BY_CODE, r[78]),
+            "mode": pick(Mode, MODE_BY_CODE, r[79]),
+            "fan_level": pick(Fan, FAN_BY_CODE, r[81] // 16),
+            "swing": pick(Swing, STATE_BY_CODE, r[81] % 16),
             "temperature": tenths(le16v(r[76:78])),
             "target_temperature": r[80],
             "remote_id": rid,
@@ -398,11 +421,12 @@ def ref_base(m, ip_off, dtype, state):
 
 
 def wf_type1(m, timed):
-    if not (len(m) == 165 and m[133] <= 1 and le32v(m[155:159]) < 86400):
+    if len(m) != 165:
         return False
-    if timed and m[133] == 1 and not (le32v(m[147:151]) < 86400):
-        return False
-    return True
+    conds = [m[133] <= 1, le32v(m[155:159]) < 86400]
+    if timed:
+        conds.append(implies(m[133] == 1, le32v(m[147:151]) < 86400))     # the remaining time matters only while ON
+    return all_of(conds)
 
 
 def ref_power(m, dtype, State, timed):
@@ -424,7 +448,9 @@ def ref_power(m, dtype, State, timed):
 
 
 def wf_shutter_bc(m):
-    return len(m) == 159 and m[136] == 0 and ((m[137] == 0 and m[138] == 0) or (m[137] == 1 and m[138] == 0) or (m[137] == 0 and m[138] == 1))
+    if len(m) != 159:
+        return False
+    return all_of([m[136] == 0, m[137] <= 1, m[138] <= 1, m[137] + m[138] <= 1])
 
 
 def ref_shutter_bc(m, dtype, State, Direction):
@@ -441,12 +467,13 @@ def ref_shutter_bc(m, dtype, State, Direction):
 
 
 def wf_breeze_bc(m):
-    if not (len(m) == 168 and m[137] <= 1 and 1 <= m[138] <= 5 and m[140] // 16 <= 3 and m[140] % 16 <= 1):
+    if len(m) != 168:
         return False
+    conds = [m[137] <= 1, m[138] >= 1, m[138] <= 5, m[140] // 16 <= 3, m[140] % 16 <= 1]
     for i in range(8):
-        if not (1 <= m[143 + i] < 128):
-            return False
-    return True
+        conds.append(m[143 + i] >= 1)
+        conds.append(m[143 + i] < 128)
+    return all_of(conds)
 
 
 def ref_breeze_bc(m, dtype, State, Mode, Fan, Swing):
